@@ -4,7 +4,7 @@
      JournalWriterProofs.jwrite_layout : jwrite    = render_lay . layout            *)
 From GL Require Import Base.Bytes Base.BytesProofs Codec.Journal Codec.JournalSpec Codec.JournalLemmas
   Codec.JournalReaderProofs Codec.JournalWriterProofs.
-From Coq Require Import Lia ZifyN ZifyNat ZifyBool.
+From Coq Require Import PeanoNat Lia ZifyN ZifyNat ZifyBool.
 
 Section JournalProofs.
   Variable crc : bytes -> N.
@@ -351,4 +351,343 @@ Section JournalProofs.
   Theorem no_panic strict ck b :
     Forall (fun o => o <> Panic /\ o <> OutOfFuel) (jread_log crc p strict ck b).
   Proof. rewrite (reader_factor crc p pok). apply assemble_total. Qed.
+
+  (* ------------------------------------------------------------ truncation *)
+  Definition tail_ok (tail : list bev) : Prop := tail = [] \/ exists r sz, tail = [BBad r sz].
+
+  (* a chunk cut inside its payload (at least the header survives) is a length overflow *)
+  Lemma parse_cut_chunk ck c n :
+    chunk_ok c -> lenN (c_data c) < 65536 -> hs p <= n -> n < csize p c ->
+    parse_from crc p ck (takeN n (render_chunk crc c)) = [BBad R_overflow n].
+  Proof.
+    destruct c as [t d]. intros (Ht1 & Ht2) Hd Hn1 Hn2. cbn [c_type c_data] in *.
+    unfold csize in Hn2. cbn [c_data] in Hn2.
+    change {| c_type := t; c_data := d |} with (mk t d).
+    pose proof pok as (_ & _ & _ & Hfull & _).
+    pose proof (render_chunk_shape t d []) as Hs. rewrite !app_nil_r in Hs. rewrite Hs.
+    set (c4 := le_encode 4 (cksum crc (t :: d))).
+    set (c2 := le_encode 2 (lenN d mod 65536)).
+    assert (L4 : lenN c4 = 4) by (unfold c4; rewrite lenN_le_encode; reflexivity).
+    assert (L2 : lenN c2 = 2) by (unfold c2; rewrite lenN_le_encode; reflexivity).
+    assert (D2 : le_decode c2 = lenN d).
+    { unfold c2. rewrite le_decode_encode. change (256 ^ N.of_nat 2) with 65536.
+      rewrite N.mod_mod by lia. apply N.mod_small. exact Hd. }
+    assert (Er : takeN n (c4 ++ c2 ++ t :: d) = c4 ++ c2 ++ t :: takeN (n - 7) d).
+    { rewrite takeN_app_ge by lia. f_equal. rewrite takeN_app_ge by lia. f_equal.
+      rewrite L4, L2. replace (n - 4 - 2) with ((n - 7) + 1) by lia.
+      unfold takeN. replace (N.to_nat (n - 7 + 1)) with (S (N.to_nat (n - 7))) by lia. reflexivity. }
+    rewrite Er.
+    set (rest := c4 ++ c2 ++ t :: takeN (n - 7) d).
+    assert (Lr : lenN rest = n).
+    { unfold rest. rewrite !lenN_app, lenN_cons, lenN_takeN. lia. }
+    assert (E4 : takeN 4 rest = c4) by (apply takeN_app_exact; exact L4).
+    assert (E2 : takeN 2 (dropN 4 rest) = c2).
+    { unfold rest. rewrite dropN_app_exact by exact L4. apply takeN_app_exact; exact L2. }
+    assert (E6 : dropN 6 rest = t :: takeN (n - 7) d).
+    { unfold rest. rewrite app_assoc. apply dropN_app_exact. rewrite lenN_app. lia. }
+    assert (Et : nth 6 rest 0 = t).
+    { pose proof (nth_dropN 0 6 0%nat rest) as Hn. rewrite E6 in Hn. cbn in Hn. symmetry. exact Hn. }
+    unfold parse_from.
+    destruct (length rest) as [|fr] eqn:Efr; [unfold lenN in Lr; lia|].
+    cbn [parse_rest].
+    replace (lenN rest <? hs p) with false by lia.
+    rewrite E4, E2, Et, D2.
+    replace (t =? 0) with false by lia. rewrite andb_false_r.
+    replace ((t <? tFull p) || (tLast p <? t)) with false by lia.
+    replace (lenN rest <? hs p + lenN d) with true by lia. rewrite Lr. reflexivity.
+  Qed.
+
+  (* the number of leading chunks of a block that lie wholly inside its first n bytes *)
+  Fixpoint fit (cs : list chunk) (n : N) : nat :=
+    match cs with
+    | [] => 0%nat
+    | c :: cs' => if csize p c <=? n then S (fit cs' (n - csize p c)) else 0%nat
+    end.
+
+  Lemma fit_le cs n : (fit cs n <= length cs)%nat.
+  Proof. revert n; induction cs as [|c cs IH]; intros n; cbn; [lia|]. destruct (csize p c <=? n); [specialize (IH (n - csize p c))|]; lia. Qed.
+
+  Lemma parse_cut ck cs pad :
+    open_ok cs -> lenN pad < hs p -> forall n,
+    exists tail, parse_from crc p ck (takeN n (render_chunks crc cs ++ pad))
+                   = map BChunk (firstn (fit cs n) cs) ++ tail /\ tail_ok tail.
+  Proof.
+    intros Hok Hpad. induction cs as [|c cs IH]; intros n.
+    - exists []. cbn [render_chunks flat_map app firstn map fit]. split; [|left; reflexivity].
+      apply (parse_from_short crc p). rewrite lenN_takeN. lia.
+    - assert (Hok' : open_ok cs).
+      { destruct Hok as (Hs & Hf). split; [cbn [bsize] in Hs; lia|]. now inversion Hf. }
+      assert (Hc : chunk_ok c) by (destruct Hok as (_ & Hf); now inversion Hf).
+      assert (Hl : lenN (c_data c) < 65536) by (apply (chunk_len_bound (c :: cs)); [exact Hok|now left]).
+      unfold render_chunks. cbn [flat_map]. fold (render_chunks crc cs). rewrite <- app_assoc.
+      pose proof (lenN_render_chunk crc p pok c) as Lc.
+      destruct (csize p c <=? n) eqn:E.
+      + rewrite takeN_app_ge by lia. rewrite Lc. cbn [fit]. rewrite E.
+        destruct (IH Hok' (n - csize p c)) as (tail & Ep & Ht).
+        exists tail. rewrite parse_chunk by assumption. rewrite Ep.
+        split; [reflexivity|exact Ht].
+      + rewrite takeN_app_le by lia. cbn [fit]. rewrite E.
+        destruct (n <? hs p) eqn:E2.
+        * exists []. split; [|left; reflexivity].
+          apply (parse_from_short crc p). rewrite lenN_takeN. lia.
+        * exists [BBad R_overflow n]. split; [|right; eauto].
+          apply parse_cut_chunk; try assumption; lia.
+  Qed.
+
+  (* the same over the blocks of a layout *)
+  Fixpoint fitb (closed : list (list chunk)) (open : list chunk) (n : N) : nat :=
+    match closed with
+    | [] => fit open n
+    | c1 :: closed' => if bs p <=? n then (length c1 + fitb closed' open (n - bs p))%nat else fit c1 n
+    end.
+
+  Lemma stream_events_cut_gen ck closed open :
+    Forall closed_ok closed -> open_ok open -> forall n,
+    exists tail,
+      stream_events crc p ck (takeN n (flat_map (render_closed crc p) closed ++ render_chunks crc open))
+      = map BChunk (firstn (fitb closed open n) (concat closed ++ open)) ++ tail /\ tail_ok tail.
+  Proof.
+    intros Hc Ho. induction closed as [|c1 closed IH]; intros n.
+    - cbn [flat_map concat app fitb].
+      destruct (parse_cut ck open [] Ho ltac:(change (lenN (@nil N)) with 0; lia) n) as (tail & E & Ht).
+      rewrite app_nil_r in E.
+      set (b := takeN n (render_chunks crc open)) in *.
+      destruct b as [|x b'] eqn:Eb.
+      + exists tail. split; [|exact Ht]. rewrite <- E. reflexivity.
+      + exists tail. split; [|exact Ht]. rewrite <- E. apply stream_events_one; [discriminate|].
+        rewrite <- Eb. unfold b. rewrite lenN_takeN, (lenN_render_chunks crc p pok). destruct Ho. lia.
+    - inversion Hc as [|? ? Hc1 Hc']; subst. cbn [flat_map concat]. rewrite <- !app_assoc.
+      destruct Hc1 as (Hbig & Hok1).
+      pose proof (lenN_render_closed c1 Hok1) as L1.
+      destruct (bs p <=? n) eqn:E.
+      + rewrite takeN_app_ge by lia. rewrite L1. cbn [fitb]. rewrite E.
+        destruct (IH Hc' (n - bs p)) as (tail & Ek & Ht).
+        exists tail. split; [|exact Ht].
+        rewrite (stream_events_cons crc p pok).
+        * rewrite takeN_app_exact, dropN_app_exact by exact L1. rewrite Ek.
+          rewrite firstn_app_2, map_app, <- app_assoc. f_equal.
+          unfold render_closed. apply parse_chunks; [exact Hok1|]. rewrite lenN_zeros. lia.
+        * intros E0. apply (f_equal lenN) in E0. rewrite lenN_app, L1 in E0.
+          change (lenN (@nil N)) with 0 in E0. lia.
+      + rewrite takeN_app_le by lia. cbn [fitb]. rewrite E.
+        destruct (parse_cut ck c1 (zeros (bs p - bsize p c1)) Hok1 ltac:(rewrite lenN_zeros; lia) n) as (tail & Ep & Ht).
+        fold (render_closed crc p c1) in Ep. pose proof (fit_le c1 n) as Hk.
+        set (k := fit c1 n) in *.
+        rewrite firstn_app. replace (k - length c1)%nat with 0%nat by lia. cbn [firstn]. rewrite app_nil_r.
+        set (b := takeN n (render_closed crc p c1)) in *.
+        destruct b as [|x b'] eqn:Eb.
+        * exists tail. split; [|exact Ht]. rewrite <- Ep. reflexivity.
+        * exists tail. split; [|exact Ht].
+          rewrite <- Ep. apply stream_events_one; [discriminate|].
+          rewrite <- Eb. unfold b. rewrite lenN_takeN. lia.
+  Qed.
+
+  (* what the assembler makes of a cut inside a record *)
+  Definition end_ok (strict : bool) (t : list outcome) : Prop :=
+    t = [] \/ t = [if strict then Err else Skipped].
+
+  Lemma outs_drop r n l : outs (Dropped r n :: l) = outs l.
+  Proof. reflexivity. Qed.
+  Lemma outs_rec d l : outs (Rec d :: l) = Rec d :: outs l.
+  Proof. reflexivity. Qed.
+
+  Lemma assemble_idle_tail strict tail : tail_ok tail ->
+    end_ok strict (outs (assemble p strict AIdle tail)).
+  Proof.
+    intros [->|(r & sz & ->)]; cbn [assemble].
+    - left; reflexivity.
+    - rewrite outs_drop. destruct strict; [right; reflexivity | left; reflexivity].
+  Qed.
+
+  Lemma assemble_in_tail strict acc tail : tail_ok tail ->
+    outs (assemble p strict (AIn acc) tail) = [if strict then Err else Skipped].
+  Proof.
+    intros [->|(r & sz & ->)]; cbn [assemble]; rewrite outs_drop; destruct strict; reflexivity.
+  Qed.
+
+  Lemma assemble_cont_cut strict x cs : cont_chunks x cs -> forall k acc tail,
+    (k < length cs)%nat -> tail_ok tail ->
+    outs (assemble p strict (AIn acc) (map BChunk (firstn k cs) ++ tail))
+    = [if strict then Err else Skipped].
+  Proof.
+    pose proof type_facts as (_&_&_&_&_&Hm&_&Hl).
+    induction 1 as [d|d x cs Hc IH]; intros k acc tail Hk Ht.
+    - cbn [length] in Hk. replace k with 0%nat by lia. cbn [firstn map app].
+      apply assemble_in_tail; exact Ht.
+    - destruct k as [|k]; cbn [firstn map app].
+      + apply assemble_in_tail; exact Ht.
+      + cbn [assemble mk c_type c_data]. rewrite Hm. apply IH; [cbn [length] in Hk; lia|exact Ht].
+  Qed.
+
+  Lemma assemble_rec_cut strict r cs k tail : rec_chunks r cs ->
+    (k < length cs)%nat -> tail_ok tail ->
+    end_ok strict (outs (assemble p strict AIdle (map BChunk (firstn k cs) ++ tail))).
+  Proof.
+    pose proof type_facts as (Hs1&Hl1&Hs2&Hl2&_).
+    intros Hr Hk Ht. destruct k as [|k].
+    - cbn [firstn map app]. apply assemble_idle_tail; exact Ht.
+    - destruct Hr as [r'|d x cs' Hc]; cbn [length] in Hk; [lia|].
+      cbn [firstn map app assemble mk c_type c_data]. rewrite Hs2, Hl2.
+      right. apply (assemble_cont_cut strict x cs' Hc); [lia|exact Ht].
+  Qed.
+
+  Lemma assemble_prefix strict rs css : Forall2 rec_chunks rs css -> forall k tail,
+    tail_ok tail ->
+    exists m t,
+      outs (assemble p strict AIdle (map BChunk (firstn k (concat css)) ++ tail))
+      = map Rec (firstn m rs) ++ t /\ end_ok strict t.
+  Proof.
+    induction 1 as [|r cs rs css Hr Hrs IH]; intros k tail Ht.
+    - exists 0%nat, (outs (assemble p strict AIdle tail)). rewrite firstn_nil. cbn [concat map app firstn].
+      split; [reflexivity|]. apply assemble_idle_tail; exact Ht.
+    - cbn [concat]. destruct (Nat.leb (length cs) k) eqn:E.
+      + apply Nat.leb_le in E.
+        rewrite firstn_app. rewrite firstn_all2 by lia.
+        destruct (IH (k - length cs)%nat tail Ht) as (m & t & Em & Hok).
+        exists (S m), t. rewrite map_app, <- app_assoc, (assemble_rec strict r cs _ Hr).
+        rewrite outs_rec, Em. split; [reflexivity|exact Hok].
+      + apply Nat.leb_gt in E.
+        rewrite firstn_app. replace (k - length cs)%nat with 0%nat by lia. cbn [firstn]. rewrite app_nil_r.
+        exists 0%nat, (outs (assemble p strict AIdle (map BChunk (firstn k cs) ++ tail))).
+        split; [reflexivity|]. apply (assemble_rec_cut strict r cs k tail Hr E Ht).
+  Qed.
+
+  (* Cutting the written stream at any offset: the reader yields a prefix of the records,
+     followed by nothing or by one Skipped (tolerant) / one Err (strict). *)
+  Theorem truncation strict ck fl rs n :
+    exists m t,
+      jread crc p strict ck (firstn n (jwrite crc p fl rs)) = map Rec (firstn m rs) ++ t /\
+      end_ok strict t.
+  Proof.
+    unfold jread. rewrite (reader_factor crc p pok), (jwrite_layout crc p pok).
+    destruct (layout_chunks rs) as ((W1 & W2) & css & E & H).
+    replace (firstn n (render_lay crc p (layout p rs)))
+      with (takeN (N.of_nat n) (render_lay crc p (layout p rs)))
+      by (unfold takeN; rewrite Nat2N.id; reflexivity).
+    unfold render_lay.
+    destruct (stream_events_cut_gen ck _ _ W1 W2 (N.of_nat n)) as (tail & Ek & Ht).
+    rewrite Ek. fold (lay_chunks (layout p rs)). rewrite E.
+    apply (assemble_prefix strict rs css H _ tail Ht).
+  Qed.
+
+  (* ---- every record that lies wholly inside the first n bytes is yielded *)
+  Definition lay_ext (l1 l : lay) : Prop :=
+    exists more,
+      (l_closed l = l_closed l1 /\ l_open l = l_open l1 ++ more) \/
+      (exists rest, l_closed l = l_closed l1 ++ (l_open l1 ++ more) :: rest).
+
+  Lemma lay_ext_refl l : lay_ext l l.
+  Proof. exists []. left. rewrite app_nil_r. auto. Qed.
+
+  Lemma lay_ext_push l1 l c : lay_ext l1 l -> lay_ext l1 (lay_push l c).
+  Proof.
+    intros (more & [(E1 & E2)|(rest & E)]); cbn.
+    - exists (more ++ [c]). left. cbn. rewrite E1, E2, app_assoc. auto.
+    - exists more. right. exists rest. exact E.
+  Qed.
+
+  Lemma lay_ext_close l1 l : lay_ext l1 l -> lay_ext l1 (lay_close l).
+  Proof.
+    intros (more & [(E1 & E2)|(rest & E)]); exists more; right; cbn.
+    - exists []. rewrite E1, E2. reflexivity.
+    - exists (rest ++ [l_open l]). rewrite E, <- app_assoc. reflexivity.
+  Qed.
+
+  Lemma lay_ext_write l1 : forall fuel l f d q, lay_ext l1 l -> lay_ext l1 (lay_write p fuel l f d q).
+  Proof.
+    induction fuel as [|fuel IH]; intros l f d q H; destruct q as [|x q]; cbn [lay_write];
+      try (apply lay_ext_push; exact H); [exact H|].
+    destruct (bsize p (l_open l) + hs p + lenN d =? bs p); apply IH; [|exact H].
+    apply lay_ext_close, lay_ext_push. exact H.
+  Qed.
+
+  Lemma lay_ext_record l1 l r : lay_ext l1 l -> lay_ext l1 (lay_record p l r).
+  Proof.
+    intros H. unfold lay_record. apply lay_ext_write. unfold lay_next.
+    destruct (bs p <? bsize p (l_open l) + hs p); [apply lay_ext_close|]; exact H.
+  Qed.
+
+  Lemma lay_ext_fold rs : forall l1 l, lay_ext l1 l -> lay_ext l1 (fold_left (lay_record p) rs l).
+  Proof.
+    induction rs as [|r rs IH]; intros l1 l H; cbn [fold_left]; [exact H|].
+    apply IH, lay_ext_record, H.
+  Qed.
+
+  Lemma fit_app a : forall b n, bsize p a <= n ->
+    fit (a ++ b) n = (length a + fit b (n - bsize p a))%nat.
+  Proof.
+    induction a as [|c a IH]; intros b n H; cbn [app fit bsize length] in *.
+    - replace (n - 0) with n by lia. reflexivity.
+    - replace (csize p c <=? n) with true by lia. rewrite IH by lia.
+      replace (n - csize p c - bsize p a) with (n - (csize p c + bsize p a)) by lia. reflexivity.
+  Qed.
+
+  Lemma fitb_prefix cl1 : Forall closed_ok cl1 -> forall rest open n,
+    bs p * lenN cl1 <= n ->
+    fitb (cl1 ++ rest) open n = (length (concat cl1) + fitb rest open (n - bs p * lenN cl1))%nat.
+  Proof.
+    induction 1 as [|c cl1 Hc Hcl IH]; intros rest open n Hn.
+    - change (lenN (@nil (list chunk))) with 0. replace (n - bs p * 0) with n by lia. reflexivity.
+    - rewrite lenN_cons in Hn. cbn [app fitb concat]. replace (bs p <=? n) with true by lia.
+      rewrite IH by lia. rewrite app_length, lenN_cons.
+      replace (n - bs p - bs p * lenN cl1) with (n - bs p * (1 + lenN cl1)) by lia. lia.
+  Qed.
+
+  Lemma lenN_render_lay l : wf_lay l ->
+    lenN (render_lay crc p l) = bs p * lenN (l_closed l) + bsize p (l_open l).
+  Proof.
+    intros (H1 & H2). unfold render_lay. rewrite lenN_app, (lenN_render_chunks crc p pok). f_equal.
+    induction H1 as [|c cl Hc Hcl IH];
+      [cbn [flat_map]; change (lenN (@nil (list chunk))) with 0; change (lenN (@nil N)) with 0; lia|].
+    cbn [flat_map]. rewrite lenN_app, lenN_cons, IH, lenN_render_closed by apply Hc. lia.
+  Qed.
+
+  Lemma fitb_ext l1 l n :
+    wf_lay l1 -> lay_ext l1 l -> lenN (render_lay crc p l1) <= n ->
+    (length (lay_chunks l1) <= fitb (l_closed l) (l_open l) n)%nat.
+  Proof.
+    intros W1 (more & Hext) Hn. rewrite (lenN_render_lay l1 W1) in Hn.
+    destruct W1 as (Wc & Wo). unfold lay_chunks. rewrite app_length.
+    destruct Hext as [(E1 & E2)|(rest & E)].
+    - rewrite E1, E2. rewrite <- (app_nil_r (l_closed l1)) at 2.
+      rewrite (fitb_prefix _ Wc) by lia. cbn [fitb]. rewrite fit_app by lia. lia.
+    - rewrite E. rewrite (fitb_prefix _ Wc) by lia. cbn [fitb].
+      destruct (bs p <=? n - bs p * lenN (l_closed l1)); [rewrite app_length; lia|].
+      rewrite fit_app by lia. lia.
+  Qed.
+
+  Lemma outs_app a b : outs (a ++ b) = outs a ++ outs b.
+  Proof. unfold outs. apply filter_app. Qed.
+
+  Theorem truncation_complete strict ck fl rs n j :
+    (length (jwrite crc p fl (firstn j rs)) <= n)%nat ->
+    exists t, jread crc p strict ck (firstn n (jwrite crc p fl rs)) = map Rec (firstn j rs) ++ t.
+  Proof.
+    intros Hlen. unfold jread. rewrite (reader_factor crc p pok).
+    rewrite !(jwrite_layout crc p pok) in *.
+    set (rs1 := firstn j rs) in *. set (rs2 := skipn j rs).
+    assert (Ers : rs = rs1 ++ rs2) by (symmetry; apply firstn_skipn).
+    destruct (layout_ok rs1 lay_empty wf_empty) as (W1 & css1 & E1 & H1).
+    change (lay_chunks lay_empty) with (@nil chunk) in E1. cbn [app] in E1.
+    fold (layout p rs1) in W1, E1.
+    destruct (layout_ok rs2 (layout p rs1) W1) as (W & css2 & E2 & H2).
+    assert (EL : layout p rs = fold_left (lay_record p) rs2 (layout p rs1)).
+    { unfold layout. rewrite Ers, fold_left_app. reflexivity. }
+    rewrite <- EL in W, E2.
+    assert (Hext : lay_ext (layout p rs1) (layout p rs)) by (rewrite EL; apply lay_ext_fold, lay_ext_refl).
+    replace (firstn n (render_lay crc p (layout p rs)))
+      with (takeN (N.of_nat n) (render_lay crc p (layout p rs)))
+      by (unfold takeN; rewrite Nat2N.id; reflexivity).
+    destruct W as (Wc & Wo). unfold render_lay at 1.
+    destruct (stream_events_cut_gen ck _ _ Wc Wo (N.of_nat n)) as (tail & Ek & Ht).
+    rewrite Ek. fold (lay_chunks (layout p rs)). rewrite E2.
+    pose proof (fitb_ext (layout p rs1) (layout p rs) (N.of_nat n) W1 Hext) as Hk.
+    assert (Hn' : lenN (render_lay crc p (layout p rs1)) <= N.of_nat n) by (unfold lenN; lia).
+    specialize (Hk Hn'). rewrite E1 in Hk |- *.
+    set (k := fitb _ _ _) in *.
+    rewrite firstn_app. rewrite (firstn_all2 (concat css1)) by lia.
+    rewrite map_app, <- app_assoc.
+    rewrite (assemble_records strict rs1 css1 _ H1). rewrite outs_app, outs_recs.
+    eexists. reflexivity.
+  Qed.
 End JournalProofs.
